@@ -31,7 +31,7 @@ def sc_restart(ident, kind, kill, latch, sig, second_kill=None):
             # the second job can only be started after the first one finished
             script.append(dict(when={"log": r"^begin 1 "}, do={"touch": "latch.1"}))
         # if the line is never reached because a body is waiting: let the bodies go after a while
-        script.append(dict(when={"all": [{"t": 12}, {"phase": ["S0", 0, "submitted"]}]}, do={"touch": "latch.all"}))
+        script.append(dict(when={"all": [{"t": 12}, {"phase": ["S0", 0, "submitted"]}]}, do={"touch": "latch.all"}, optional=True))
     else:
         ph = kill["phase"]
         if ph == "start":
@@ -53,7 +53,7 @@ def sc_restart(ident, kind, kill, latch, sig, second_kill=None):
         idx = len(script)
         script.append(dict(when=cond, do={"kill": ["S0", 0, sig]}))
         # a process that ignores the signal for too long (SIGINT is only a request) is killed
-        script.append(dict(when={"after": [idx, 6.0]}, do={"kill": ["S0", 0, "KILL"]}))
+        script.append(dict(when={"after": [idx, 6.0]}, do={"kill": ["S0", 0, "KILL"]}, optional=True))
     i_dead = len(script)
     if latch == "early":
         script.append(dict(when={"dead": ["S0", 0]}, do={"touch": "latch.all"}))
@@ -66,10 +66,10 @@ def sc_restart(ident, kind, kill, latch, sig, second_kill=None):
         runs.append(dict(sid="S0", slot=0, run=2, xpname="x"))
         script.append(dict(when={"dead": ["S0", 1]}, do={"start": ["S0", 2]}))
         script.append(dict(when={"phase": ["S0", 2, "submitted"]}, do={"touch": "latch.all"}))
-        script.append(dict(when={"all": [{"t": 14}, {"phase": ["S0", 1, "submitted"]}]}, do={"touch": "latch.all"}))
+        script.append(dict(when={"all": [{"t": 14}, {"phase": ["S0", 1, "submitted"]}]}, do={"touch": "latch.all"}, optional=True))
     else:
         script.append(dict(when={"phase": ["S0", 1, "submitted"]}, do={"touch": "latch.all"}))
-    return dict(id=ident, kind=kind, tags=tags, timeout=45, files=files, runs=runs, script=script,
+    return dict(id=ident, kind=kind, tags=tags, timeout=40, files=files, runs=runs, script=script,
                 meta=dict(family="restart", kind=kind, kill=kill, latch=latch, sig=sig, second_kill=second_kill))
 
 
@@ -210,11 +210,7 @@ def build_case(sc, out, markers, budget=150000):
 def _stale(out, tag):
     for j in out.get("pre_paths") or []:
         if j["tag"] == tag:
-            try:
-                import json
-                return json.loads(open(j["pid"]).read()).get("pid")
-            except Exception:
-                return None
+            return j.get("stalepid")
     return None
 
 
